@@ -28,6 +28,9 @@ type compiler struct {
 
 	// typedefs whose type is being compiled, to detect a typedef that refers to itself
 	typedefsInProgress map[*Typedef]struct{}
+
+	// imported modules already visited by compileImport
+	imported map[*Module]struct{}
 }
 
 func (c *compiler) module(y *Module) error {
@@ -58,6 +61,14 @@ func (c *compiler) module(y *Module) error {
 }
 
 func (c *compiler) compileImport(m *Module) error {
+	// modules may import each other (or themselves): visit each once
+	if _, seen := c.imported[m]; seen {
+		return nil
+	}
+	if c.imported == nil {
+		c.imported = make(map[*Module]struct{})
+	}
+	c.imported[m] = struct{}{}
 	for _, i := range m.identities {
 		if err := c.compile(i); err != nil {
 			return err
